@@ -18,14 +18,12 @@ def registry():
             cls = getattr(mod, name)
             if isinstance(cls, type) and getattr(cls, "pid", "C00") != "C00" and name == cls.pid:
                 reg[cls.pid] = cls
-    try:
-        from vlib import props_b
-        for name in dir(props_b):
-            cls = getattr(props_b, name)
+    from vlib import props_b, props_c
+    for mod in (props_b, props_c):
+        for name in dir(mod):
+            cls = getattr(mod, name)
             if isinstance(cls, type) and getattr(cls, "pid", "C00") != "C00" and name == cls.pid:
                 reg[cls.pid] = cls
-    except ImportError:
-        pass
     return reg
 
 
